@@ -108,7 +108,7 @@ GROUPS = {'binary': cs.binary_group(widths=(8, 16, 32, 64))}
 SITE_CHECKS = [
     {'file': P, 'pattern': r'if \(\+\+state_stack_\.back\(\)\.index > max_items_\)\s*\{\s*ec = ubjson_errc::max_items_exceeded;', 'count': 2, 'props': ['C10'],
      'what': 'the two indefinite-length iteration sites (array, object) count elements against max_items before reading the next one'},
-    {'file': P, 'pattern': r'state_stack_\.emplace_back\(', 'count': 6, 'props': ['C10'], 'what': 'containers are pushed only inside begin_array / begin_object (three pushes each)'},
+    {'file': P, 'pattern': r'state_stack_\.emplace_back\(parse_mode::(?!root)', 'count': 6, 'props': ['C10'], 'what': 'containers are pushed only inside begin_array / begin_object (three pushes each; the two other pushes are the root entry at reset)'},
 ]
 HARNESSES = [
     Harness('begin_array', 'h_begin_array', enforce='begin_array', replace=['get_length'], method='LF', unwind=10, props=['C10', 'C07']),
